@@ -163,6 +163,9 @@ def run(ctx):
     cli_cases(ctx, ctx.scale(80, 1500))
 
 
+MAXN_CORNERS = [(n_, L_) for L_ in range(2, 121) for n_ in range(1, L_) if (n_ / L_) * L_ != n_]
+
+
 def cli_cases(ctx, n):
     """the same definitions through the command line (where the options are wired to the functions): --poly-a, --trim-n, --max-n, --max-ee and
     --max-aer one at a time on mixed-case reads, with the action/cores settings that change how the pipeline is assembled; every output
@@ -188,10 +191,22 @@ def cli_cases(ctx, n):
                 s_ = rng.choice(["", "TTTTTTt", "TTTCTTTT"]) + s_ + rng.choice(["AAAAAA", "AAAaAAAA", "AAACAAAAA", "AAA", ""])
             q_ = "".join(chr(33 + rng.choice([0, 2, 10, 13, 20, 30, 40])) for _ in s_)
             reads.append((f"r{i}", s_, q_))
+        if opt == "--max-n" and rng.random() < 0.35:
+            # a fraction that the read meets exactly: n N's in L bases with --max-n = n/L ("more than" - the read is kept), at lengths where
+            # the double (n/L) times L is not n, i.e. where dividing the count and multiplying the cutoff disagree
+            n_, L_ = rng.choice(MAXN_CORNERS)
+            val = repr(n_ / L_)
+            argv = [t if t != argv[argv.index(opt) + 1] or k != argv.index(opt) + 1 else val for k, t in enumerate(argv)]
+            for d_ in (0, 1, -1, 0):
+                m_ = min(max(n_ + d_, 0), L_)
+                body = list("N" * m_ + "".join(rng.choice("ACGT") for _ in range(L_ - m_)))
+                rng.shuffle(body)
+                s_ = "".join(body)
+                reads.append((f"b{len(reads)}", s_, "I" * len(s_)))
         c = dict(argv=argv, paired=False, reads1=reads, reads2=None, with_qual=True, interleaved_in=False, c14=(opt, val))
         if rng.random() < 0.2:
             c["cores"] = 2
-            c["buffer_size"] = 400
+            c["buffer_size"] = 4000        # (must hold the longest record twice over: dnaio refuses smaller buffers with an OverflowError)
         cases.append(c)
     for case, res, real, model in pipe.run_cases(ctx, cases):
         ctx.count("cli")
